@@ -19,12 +19,19 @@
           `gate_can_open_iff` (the gate can open from a reachable state iff no toggle is stranded),
           `gate_stuck_of_leak`, `gate_stuck_dead_watcher_witness`; and witnesses that three broken
           variants of the transition system violate safety.
+  Part III (the producer of LISTED, `watching.infinite_watch`/`streaming_block`/`continuous_watch`): what the
+          gate's input label `listed r` stands for — for every interleaving of pauses, LIST answers,
+          failures and abandoned LIST requests: `listed_means_listed` (every LISTED the stream yields comes
+          after an ANSWERED LIST request of the same round and after every item of that answer),
+          `abandoned_round_is_silent`, `nothing_listed_while_paused`; three broken variants refuted
+          (`abandonedReportsListed_witness`, `listedBeforeItems_witness`, `listWhilePaused_witness`).
 -/
 import Kopf.Base.J
 import Kopf.Lemmas.C17_Mirror
 import Kopf.Lemmas.C17_Keyed
 import Kopf.Lemmas.C17_GateLive
 import Kopf.Lemmas.C17_Nodup
+import Kopf.Lemmas.C17_Listing
 namespace Kopf.C17
 
 section Index
@@ -633,4 +640,67 @@ theorem gate_stuck_dead_watcher_witness : ∃ s : GState Nat Nat, Reach s ∧ s.
   exact stuck_of_leak (Or.inr (by decide)) ls s' h
 
 end Gate
+namespace Listing
+
+/-- **LISTED means listed**: for every interleaving of pauses/un-pausings with the rounds of one
+    watch-stream (LIST answered with any number of items, failed, or abandoned because of a pause),
+    every `Bookmark.LISTED` the stream has yielded was yielded in a round whose LIST request had been
+    ANSWERED (`a = some n`), after exactly all `n` items of that answer (`y = n`). This is what
+    `queueing.watcher` takes LISTED for when it drops the kind's readiness toggle (the gate's label
+    `listed r`): "listed … once" in the property's sense. -/
+theorem listed_means_listed {s : LState} (h : Reach s) (a : Option Nat) (y : Nat)
+    (hm : Out.listed a y ∈ s.out) : a = some y := by
+  obtain ⟨ls, hr⟩ := h
+  exact (inv_run inv_init hr).1 _ hm
+
+/-- An abandoned LIST request ends its round without a word: nothing is yielded (in particular no
+    LISTED), and the stream is back between rounds, where `streaming_block` holds it while paused. -/
+theorem abandoned_round_is_silent {s s' : LState} (h : step .none s .abandon = some s') :
+    s'.out = s.out ∧ s'.phase = .blocked ∧ s'.paused = true := by
+  simp only [step] at h
+  split at h
+  · rename_i hg
+    split at h
+    · rename_i hb; cases hb
+    · simp only [Option.some.injEq] at h; subst h; exact ⟨rfl, rfl, hg.2⟩
+  · cases h
+
+/-- "Nothing must be listed while paused": no LIST request is ever started while the operator is paused. -/
+theorem nothing_listed_while_paused {s : LState} (h : Reach s) : s.startedPaused = false := by
+  obtain ⟨ls, hr⟩ := h
+  exact (inv_run inv_init hr).2.2.2
+
+/-- non-vacuity: a start-up whose first LIST is abandoned because of a pause; after the un-pausing the
+    kind is listed afresh (2 items) and only then LISTED is yielded. -/
+example : (run .none LState.init
+    [.begin, .pause, .abandon, .unpause, .begin, .answer 2, .yieldItem, .yieldItem, .yieldListed, .event]).map (·.out)
+    = some [.item, .item, .listed (some 2) 2, .event] := by decide
+
+/-- non-vacuity: the answer and the pause at the same moment — a finished listing is not abandoned -/
+example : (run .none LState.init [.begin, .pause, .answer 0, .yieldListed, .endWatch]).map (fun s => (s.out, s.phase))
+    = some ([.listed (some 0) 0], .blocked) := by decide
+
+/-- non-vacuity of the guards: `abandon` needs a pause; LISTED needs all items out; no round begins while paused -/
+example : (run .none LState.init [.begin, .abandon]).isNone = true := by decide
+example : (run .none LState.init [.begin, .answer 1, .yieldListed]).isNone = true := by decide
+example : (run .none LState.init [.pause, .begin]).isNone = true := by decide
+
+/-- The variant in which an abandoned LIST falls through to `yield Bookmark.LISTED` (the pause-helper
+    returning an empty listing instead of ending the round) violates `listed_means_listed`: LISTED for a
+    kind that was never listed. -/
+theorem abandonedReportsListed_witness : ∃ (ls : List Label) (s : LState),
+    run .abandonedReportsListed LState.init ls = some s ∧ Out.listed none 0 ∈ s.out :=
+  ⟨[.begin, .pause, .abandon], _, rfl, by decide⟩
+
+/-- The variant that yields LISTED before the items of the answer violates it as well. -/
+theorem listedBeforeItems_witness : ∃ (ls : List Label) (s : LState),
+    run .listedBeforeItems LState.init ls = some s ∧ Out.listed (some 2) 0 ∈ s.out :=
+  ⟨[.begin, .answer 2, .yieldListed], _, rfl, by decide⟩
+
+/-- The variant whose `streaming_block` does not hold the round lists while paused. -/
+theorem listWhilePaused_witness : ∃ (ls : List Label) (s : LState),
+    run .listWhilePaused LState.init ls = some s ∧ s.startedPaused = true :=
+  ⟨[.pause, .begin], _, rfl, rfl⟩
+
+end Listing
 end Kopf.C17
